@@ -76,19 +76,27 @@ class Env:
         return {n: rng.randrange(self.card[n]) for n in self.names}
 
 
-def names_of(e) -> set:
-    """every variable name occurring anywhere in the expression (children, parents, subscripts, ranges, populations)"""
-    from y0.dsl import PopulationProbability
+def _var_names(v) -> set:
+    out = {v.name}
+    for i in getattr(v, "interventions", ()) or ():
+        out.add(i.name)
+    return out
 
-    out = {v.name for v in e.get_variables()}
+
+def names_of(e) -> set:
+    """every variable name occurring anywhere in the expression (children, parents, subscripts, ranges, populations,
+    Q-factor domains and codomains)"""
+    out = set()
     stack = [e]
     while stack:
         x = stack.pop()
-        if isinstance(x, PopulationProbability):
-            out.add(x.population.name)
-            out |= {v.name for v in x.population._iter_variables()}
-        for attr in ("expressions",):
-            stack.extend(getattr(x, attr, ()))
+        for attr in ("children", "parents", "ranges", "domain", "codomain"):
+            for v in getattr(x, attr, ()) or ():
+                out |= _var_names(v)
+        pop = getattr(x, "population", None)
+        if pop is not None:
+            out |= _var_names(pop)
+        stack.extend(getattr(x, "expressions", ()) or ())
         for attr in ("expression", "numerator", "denominator"):
             y = getattr(x, attr, None)
             if y is not None:
@@ -199,7 +207,7 @@ def same_meaning(a, b, seed: int, trials: int = 3):
     """None if `a` and `b` evaluate identically on `trials` random (env, sigma); else a description of the witness"""
     names = names_of(a) | names_of(b)
     for t in range(trials):
-        env = Env(seed * 7919 + t, names, max_card=3 if len(names) <= 5 else 2)
+        env = Env(seed * 7919 + t, names, max_card=3 if len(names) <= 4 else 2)
         sigma = env.random_sigma(_rng("sigma", seed, t))
         va, vb = value(a, env, sigma), value(b, env, sigma)
         if va is None or vb is None:
